@@ -77,6 +77,8 @@ def record_case(draw):
         op = draw(st.sampled_from(sorted(OPS)))
         pool = fields[field] if fields[field] and draw(st.integers(0, 3)) > 0 else (VALUES if field[0] == "F" else [str(i) for i in range(13)] + ["16777216", "16777217", "20000000"])
         v = draw(st.sampled_from(pool))
+        if field[0] == "I" and "." not in v and draw(st.integers(0, 2)) == 0:
+            v = v + draw(st.sampled_from([".5", ".25", ".999", ".001"]))  # a fractional threshold on an Integer field
         spelling = draw(st.sampled_from(["plain", "plain", "nolead", "trail"]))
         if spelling == "nolead" and v.startswith("0."):
             v = v[1:]
